@@ -916,6 +916,8 @@ class TreeTransform(Generic[TreeFnT]):
       if type(fn) is tree_fns.TreeFn:  # pylint: disable=unidiomatic-typecheck
         result = set()
       result.update(itertools.chain(non_dict_keys, *dict_keys))
+    # SKIP is a placeholder for a discarded output, not an output key.
+    result.discard(tree.Key.SKIP)
     return result
 
   @property
